@@ -250,6 +250,8 @@ def generate(outdir, repo_include_dirs):
                 lines.append("API_STRUCT_BEGIN(%s, %s)" % (q, tag))
                 for (n, t, _, kind) in pub_fields:
                     lines.append("API_FIELD(%s, %s)" % (q, n))
+                    if n.startswith("reserved"):
+                        continue      # reserved fields are printed but never varied by the generated domains
                     lines.append("API_FIELD_%s(%s, %s)" % (kind, q, n))
                 lines.append("API_STRUCT_END(%s, %s)" % (q, tag))
             elif not pub_fields and getters and (q in VSTRUCT_WHITELIST or derives_from_pdu(recs, "::".join(q.split("::")[:2]))):
